@@ -49,7 +49,83 @@ def chinook_phase(run):
         w.close()
 
 
+def distinct_matrix(tier):
+    """Enumerated: `group KEYS (sort? | take n)` - the shapes the compiler may rewrite to SELECT DISTINCT / DISTINCT ON /
+    ROW_NUMBER - x what stands between the group and the final projection (nothing, a filter / sort / derive that reads
+    a NON-key column of the chosen row, a filter on a key, a take) x the final projection (exactly the keys, keys
+    re-ordered, a subset of the keys, keys + a non-key column, none).  Sorting inside the group is by the unique id,
+    so the chosen row is determined."""
+    from . import c04
+    col = lambda n: ["col", None, n]
+    head = [{"t": "from", "src": {"k": "table", "name": "t2"}, "alias": None}]
+    pre = {"all": [], "sel4": [{"t": "select", "items": [[None, col("id")], [None, col("k")], [None, col("a")], [None, col("c")]]}],
+           "sel2": [{"t": "select", "items": [[None, col("k")], [None, col("a")]]}]}
+    keysets = {"k": ["k"], "ka": ["k", "a"], "a": ["a"], "ak": ["a", "k"]}
+    inners = {"take1": [{"t": "take", "lo": None, "hi": 1, "plain": True}],
+              "sort_take1": [{"t": "sort", "keys": [[False, col("id")]]}, {"t": "take", "lo": None, "hi": 1, "plain": True}],
+              "sortdesc_take1": [{"t": "sort", "keys": [[True, col("id")]]}, {"t": "take", "lo": None, "hi": 1, "plain": True}],
+              "sort_take2": [{"t": "sort", "keys": [[False, col("id")]]}, {"t": "take", "lo": None, "hi": 2, "plain": True}],
+              "sort_take_1_1": [{"t": "sort", "keys": [[False, col("id")]]}, {"t": "take", "lo": 1, "hi": 1, "plain": False}],
+              "sort_take_2_2": [{"t": "sort", "keys": [[False, col("id")]]}, {"t": "take", "lo": 2, "hi": 2, "plain": False}]}
+    def betweens(nonkey, key):
+        return {"none": [], "filter_nonkey": [{"t": "filter", "cond": ["bin", ">", col(nonkey), ["lit", 1]]}],
+                "filter_key": [{"t": "filter", "cond": ["bin", ">", col(key), ["lit", 1]]}],
+                "sort_nonkey": [{"t": "sort", "keys": [[True, col(nonkey)]]}],
+                "derive_filter": [{"t": "derive", "items": [["z", ["bin", "+", col(nonkey), ["lit", 1]]]]}, {"t": "filter", "cond": ["bin", ">", col("z"), ["lit", 2]]}],
+                "filter_null": [{"t": "filter", "cond": ["bin", "!=", col(nonkey), ["lit", None]]}]}
+    progs = []
+    for pn, p0 in pre.items():
+        avail = {"all": ["id", "k", "a", "c", "s"], "sel4": ["id", "k", "a", "c"], "sel2": ["k", "a"]}[pn]
+        for kn, keys in keysets.items():
+            nonkeys = [c for c in avail if c not in keys]
+            for inn, inner in inners.items():
+                if pn == "sel2" and "sort" in inn:
+                    continue          # no unique column left to sort by: the chosen row would be undetermined
+                if pn == "sel2" and inn == "take1" and len(keys) < 2:
+                    continue
+                for bn, btw in betweens(nonkeys[0] if nonkeys else keys[0], keys[0]).items():
+                    if not nonkeys and bn in ("filter_nonkey", "sort_nonkey", "derive_filter", "filter_null"):
+                        continue
+                    finals = {"keys": [[None, col(k)] for k in keys], "keys_rev": [[None, col(k)] for k in reversed(keys)], "first_key": [[None, col(keys[0])]],
+                              "none": None}
+                    if nonkeys:
+                        finals["keys_nonkey"] = [[None, col(k)] for k in keys] + [[None, col(nonkeys[0])]]
+                    for fn, fin in finals.items():
+                        if fn == "keys_rev" and len(keys) < 2:
+                            continue
+                        if tier == "quick" and pn == "all" and fn in ("keys_rev", "none") and bn not in ("none", "filter_nonkey"):
+                            continue
+                        main = head + p0 + [{"t": "group", "keys": [col(k) for k in keys], "pipe": inner}] + btw
+                        if fin is not None:
+                            main = main + [{"t": "select", "items": fin}]
+                        progs.append({"lets": [], "main": main, "cuts": []})
+    db = dict(c04.MATRIX_DB)
+    return db, progs
+
+
+def distinct_phase(run, tier, seed):
+    db, progs = distinct_matrix(tier)
+    N = core.NCPU
+    kws = [dict(prop="C01", seed=seed, shard=i, n_cases=0, profile="core", props=PROPS, fixed=[(db, progs[i::N])], reduce_budget=8) for i in range(N)]
+    res = core.run_shards(relcheck.explore_shard, kws)
+    obs = relcheck.merge_obs([o for _, o in res])
+    for v, _ in res:
+        run.extend(v)
+    feats = obs.get("sql_features", {})
+    run.coverage["distinct_matrix"] = {"programs": len(progs), "executions": obs.get("cases", 0), "judged": obs.get("judged", 0), "unspecified": obs.get("unspecified", 0),
+                                       "rejected": obs.get("rejected", 0), "statements_with_distinct": feats.get("distinct", 0), "statements_with_row_number": feats.get("row_number", 0),
+                                       "cells": "3 input frames x 4 key sets x 6 group bodies (take 1, sort | take 1 / 2 / 1..1 / 2..2) x 6 steps between (none, filter / sort / derive on a non-key column, filter on a key, null test) x 5 final projections"}
+    run.coverage["evaluations"] = run.coverage.get("evaluations", 0) + obs.get("cases", 0)
+    run.coverage["judged_against_model"] = run.coverage.get("judged_against_model", 0) + obs.get("judged", 0)
+
+
 def run(tier, seed):
+    r = run_(tier, seed)
+    distinct_phase(r, tier, seed)
+    return r
+
+
+def run_(tier, seed):
     r = explore("C01", PROPS, [("core", 0.75), ("boundary_nowin", 1.5), ("shared", 0.5)], tier, seed, 900, 24000, ASSUMPTIONS)
     chinook_phase(r)
     r.assumptions = list(r.assumptions) + [
